@@ -873,7 +873,7 @@ theorem reloc_inv {s : VState} {voc : Int} (hx : VInvX s voc) (hv0 : 0 ≤ voc) 
 def patchCore (s : VState) (chn : Int) : Option (VState × Int × Int) :=
   let voc := (s.chan chn).map
   if voc > -1 then
-    if (s.voice voc).act ≠ 0 then
+    if (s.voice voc).act ≠ 0 ∧ (setpatchRelocNeedsSlots = false ∨ s.virtChannels > s.numTracks) then
       let (s1, vfree) := allocVoice s chn
       if vfree < 0 then none else
       let c := relocTarget s1 (s1.virtChannels - s1.numTracks + 1).toNat s1.numTracks
@@ -901,7 +901,7 @@ theorem setPatch_eq (s0 : VState) (chn ins smp0 key nna dct dca : Int) :
 
 /-- does `setPatch` take the NNA relocation branch in state `s` (after the DCT loop)? -/
 def RelocTaken (s : VState) (chn : Int) : Prop :=
-  (s.chan chn).map > -1 ∧ (s.voice (s.chan chn).map).act ≠ 0
+  (s.chan chn).map > -1 ∧ ((s.voice (s.chan chn).map).act ≠ 0 ∧ (setpatchRelocNeedsSlots = false ∨ s.virtChannels > s.numTracks))
 
 instance (s : VState) (chn : Int) : Decidable (RelocTaken s chn) := by unfold RelocTaken; infer_instance
 
